@@ -543,8 +543,10 @@ type Failure struct {
 	Msg   string `json:"message"`
 }
 
-// KernelFailures turns kernel-level outcomes into failures shared by all properties.
-func KernelFailures(rr *RunResult) []Failure {
+// KernelFailures turns kernel-level outcomes into failures shared by all
+// properties. Data races count only for the properties that state race
+// freedom (C06) or whose violation a race between detections is (C04).
+func KernelFailures(rr *RunResult, withRaces bool) []Failure {
 	var fs []Failure
 	o := rr.Out
 	switch o.Class {
@@ -555,7 +557,7 @@ func KernelFailures(rr *RunResult) []Failure {
 		}
 		fs = append(fs, Failure{o.Class, msg})
 	}
-	if o.Races > 0 {
+	if o.Races > 0 && withRaces {
 		fs = append(fs, Failure{"race", fmt.Sprintf("%d data race report(s) during the run", o.Races)})
 	}
 	return fs
@@ -575,8 +577,8 @@ func firstLines(s string, n int) string {
 	return string(out)
 }
 
-// CallerMemoryFailures checks the memory the caller lent to the library.
-func CallerMemoryFailures(rr *RunResult) []Failure {
+// BufferFailures checks the input buffers the caller lent to the library.
+func BufferFailures(rr *RunResult) []Failure {
 	var fs []Failure
 	w := rr.W
 	for i, in := range rr.Plan.Shared {
@@ -584,6 +586,21 @@ func CallerMemoryFailures(rr *RunResult) []Failure {
 			fs = append(fs, Failure{"buffer-modified", fmt.Sprintf("shared input buffer %d (%s) or its spare capacity was modified", i, in)})
 		}
 	}
+	for ti, ops := range rr.Plan.Tasks {
+		for oi := range ops {
+			r := &w.Res[ti][oi]
+			if r.Done && r.BufChanged {
+				fs = append(fs, Failure{"buffer-modified", fmt.Sprintf("t%d op%d %s: the caller's buffer or its spare capacity was modified", ti, oi, ops[oi])})
+			}
+		}
+	}
+	return fs
+}
+
+// AliasMemoryFailures checks the alias backing arrays the caller lent to Extend.
+func AliasMemoryFailures(rr *RunResult) []Failure {
+	var fs []Failure
+	w := rr.W
 	// shared alias arrays: every cell must hold what the plan put there
 	want := make([][]string, len(w.Arrays))
 	for k, a := range w.Arrays {
@@ -618,9 +635,6 @@ func CallerMemoryFailures(rr *RunResult) []Failure {
 			r := &w.Res[ti][oi]
 			if !r.Done {
 				continue
-			}
-			if r.BufChanged {
-				fs = append(fs, Failure{"buffer-modified", fmt.Sprintf("t%d op%d %s: the caller's buffer or its spare capacity was modified", ti, oi, ops[oi])})
 			}
 			for i := r.BackingLen; i < len(r.Backing); i++ {
 				if r.Backing[i] != "" {
